@@ -65,6 +65,17 @@ PROPS = {
     'C17': {'suites': [{'name': 'reg', 'quick': '-n 150 -ops 60', 'thorough': '-n 1500 -ops 120', 'shards': {'quick': 2, 'thorough': 16}}],
             'trusted_base': REG_TB, 'rule': REG_RULE,
             'assumptions': ['chain ids consist of bytes (hypothesis realbytes); the tx signer is the validator account (SDK GetSigners)']},
+    'C18': {'suites': [{'name': 'oracle', 'quick': '-n 300 -ops 80', 'thorough': '-n 4000 -ops 160', 'shards': {'quick': 2, 'thorough': 16}}],
+            'trusted_base': [
+                'model: coq/Oracle/Oracle.v (MsgPriceClaim / MsgHoldersClaim handlers, attestation vote lists, tryAttestation threshold, GetNormalizedValPowers, the two AttestationHandler branches, ProcessCurrentEpoch, '
+                'the oracle EndBlocker) is hand-written; tied to /repo by co-executing claim/epoch histories on the real x/oracle msg server, keeper and EndBlocker (real stores, real sdk.Dec arithmetic)',
+                'abstractions: a validator is one identity (the raw address bytes shared by its operator and account address; the bech32 conversions are done by the harness); staking (bonded flag, LastValidatorPower, LastTotalPower = sum of bonded) '
+                'and the required price names (mhub2 token list + eth, ethereum/gas, bnb, bsc/gas) are inputs; holder lists are compared in their stabilized (sorted "address:value") form, which the harness computes; '
+                'prices are sdk.Dec mantissas (value * 10^18); the 65535-normalised power of GetNormalizedValPowers is taken as the stake weight (theorem C18_weight_is_stake_share: within one unit of the exact share)'],
+            'rule': 'seeded histories of 80-160 operations for 1-6 validators (equal powers, 10/40/40/10/25/25, random up to 100 and up to 1e6), one or two hub tokens: price claims (complete, a required name missing, a zero price, an extra name; '
+                    'current, previous and next epoch; by validators and by a stranger; repeated by the same validator), holders claims (three list variants incl. the empty list, permuted), EndBlocker at consecutive heights (every 5th is an epoch boundary), '
+                    'staking changes (power, bonding) in mid-epoch. After every operation: epoch, stored prices, stored holders and both vote lists are compared.',
+            'assumptions': ['staking powers are non-negative (hypothesis wf_oop / vals_ok)', 'operator addresses are unique among validators (cosmos-sdk staking)']},
     'C14': {'suites': [{'name': 'claim', 'quick': '-n 4000', 'thorough': '-n 60000', 'shards': {'quick': 2, 'thorough': 16}}],
             'trusted_base': [
                 'model: coq/Ext/ClaimHash.v (type tag + 8-byte length-prefixed fields of each event type; sdk.Int as sign byte + minimal big-endian magnitude; members in Sort() order) is hand-written; '
@@ -129,6 +140,11 @@ TEXT = {
     'C17': {'technique': 'Coq invariant by induction over registration histories + correspondence with real signatures',
             'level': 'Theorems for all histories: per chain an external address is bound to at most one validator; every validator->address and orchestrator->validator binding stems from a successful registration of that validator; success requires an unused address and orchestrator and a signature recovering to the address over (validator, sequence-1); orchestrators resolve to their validator. Monitors on the implementation.',
             'note': 'Trusted: Coq kernel, extraction + driver, Go harness; ECDSA recovery computed by go-ethereum in the harness.'},
+    'C18': {'technique': 'Coq invariant over claim histories + order-independence lemma for the quorum + sorted-list proof of the weighted median + correspondence with the real x/oracle keeper',
+            'level': 'Theorems for all histories and power distributions: epoch, prices and holders change at no step other than the epoch-boundary EndBlocker; voters are pairwise distinct and are exactly the validators with a stored (latest) report of the epoch; '
+                     'the in-order early-exit quorum test equals "voters hold >= 66% of bonded power"; a boundary that changes prices/holders had that quorum; every stored price is the weighted median (half-weight bounds on both sides) of the latest reports; '
+                     'an adopted holder list is the identical list of voters holding more than two thirds of the real stake. Monitors recompute quorum, median and two-thirds independently on the implementation.',
+            'note': 'Trusted: Coq kernel, extraction + driver, Go harness; staking and required names are inputs; the model covers the tree after the two oracle fix: commits (vote dedup + ceil threshold, nil payload checks).'},
     'C14': {'technique': 'Coq injectivity proof of the hashed encoding (framing, fixed-width and minimal big-endian lemmas) + equality-pattern correspondence',
             'level': 'Theorem: for all admissible events of any two types, equal hashed byte strings imply the same type and equal values of every field (so, with a collision-free SHA-256, events differing in any effect field get different claim ids). The encoding model is tied to the real Hash() by equality patterns over generated mutant pairs.',
             'note': 'Trusted: Coq kernel, extraction + driver, Go harness; SHA-256 collision resistance assumed.'},
